@@ -444,9 +444,14 @@ def replay_okl(ck, lines):
             ck.oracle_violation("fresh and cached kernels decide differently: fresh %s, cached %s" % (runs_f, runs_c), "\n".join(lines), name="okl")
         if want and any(x != want for x in runs_f + runs_c):
             ck.oracle_violation("decision differs from the compatibility rule: %s / %s, expected %s" % (runs_f, runs_c, want), "\n".join(lines), name="okl")
-        metas = [x.split(" meta=")[-1] for x in f[0][4:] + c[0][4:] if x.startswith("built ")]
-        if len(set(metas)) > 1 or any("init=0" in x for x in f[0][4:] + c[0][4:]):
-            ck.oracle_violation("metadata of the cached kernel differs from the fresh one (or is not initialized)", "\n".join(lines), name="okl")
+        for x, y in zip(f[0][4:], c[0][4:]):
+            if x.startswith("built ") and (x.split(" meta=")[-1] != y.split(" meta=")[-1] or "init=0" in x + y):
+                ck.oracle_violation("metadata of the cached kernel differs from the fresh one (or is not initialized): %s / %s"
+                                    % (x[:160], y[:160]), "\n".join(lines), name="okl")
+        bad = [x for x in f[0][4:] + c[0][4:] if x.startswith(("exception:", "CRASH", "HANG"))]
+        if bad:
+            ck.oracle_violation(("translated OKL source does not compile" if "Error compiling" in bad[0] else "kernel build fails")
+                                + ": " + bad[0][:200], "\n".join(lines), name="okl")
     finally:
         shutil.rmtree(work, ignore_errors=True)
 
